@@ -4215,6 +4215,16 @@ def _parse_simple_lines(
 def parse(src: str) -> Program:
     """Parse ``src`` into a :class:`~Reduino.transpile.ast.Program`."""
 
+    try:
+        return _parse_program(src)
+    except (RecursionError, MemoryError, OverflowError) as exc:
+        # e.g. hundreds of nested parentheses/operators, or a constant such as 1e400
+        raise ValueError(
+            f"script cannot be transpiled ({type(exc).__name__}: {exc})"
+        ) from exc
+
+
+def _parse_program(src: str) -> Program:
     lines = src.splitlines()
     setup_body: List[object] = []
     loop_body: List[object]  = []
